@@ -62,14 +62,52 @@ CHECKS = {
         ref="DESIGN.md 3/C17"),
 }
 
+B_NOTE = ("Trusted: Kani 0.68 / CBMC 6.11 / CaDiCaL; the reference meaning of each instruction shape and the "
+          "plain copies of cairo-vm's instruction enums in the harness crate; stubs listed in the evidence "
+          "(num-bigint `<<` and `|=` models for the opcode-extension shapes; `words_per_felt` model). Bounds per "
+          "harness are in engines/kani/bounds.py and are copied into the evidence file.")
+CHECKS.update({
+    "C16": dict(
+        cat="model_checking", engine="kani",
+        text=("One Kani proof harness per instruction shape with all i16 offsets, both registers, inc_ap, "
+              "rel/abs, Add/Mul, finalize symbolic: the real Instruction::assemble().encode() is decoded by "
+              "cairo-vm 3.2.0's own decode_instruction (its decoder.rs mounted next to copies of its enums) "
+              "and every decoded field is compared with the reference meaning of the CASM instruction; the "
+              "number of words equals op_size(); shapes the assembler must reject do panic. CBMC decides each "
+              "harness over all field values; kani::cover! witnesses guard against vacuity."),
+        technique="Kani/CBMC bounded model checking of the assembler+encoder against the VM's decoder",
+        ref="DESIGN.md 3/C16", note=B_NOTE),
+    "C14": dict(
+        cat="model_checking", engine="kani",
+        text=("PARTIAL (felt-deserialisation layer only): Kani harnesses over the real felt252_serde.rs / "
+              "felt252_vec_compression.rs mounted with include!: every component deserialiser, "
+              "version_id_from_felt252s and decompress return Ok/Err on arbitrary slices of <= 6 felts "
+              "(64-bit symbolic contents) without panic, overflow or out-of-bounds access, and "
+              "vec_with_bounded_capacity never reserves more than the remaining input. ProgramRegistry, "
+              "metadata computation and compile on mutated programs are NOT covered."),
+        technique="Kani/CBMC bounded model checking of the deserialisers on arbitrary short inputs",
+        ref="DESIGN.md 3/C14", note=B_NOTE),
+    "C18": dict(
+        cat="model_checking", engine="kani",
+        text=("PARTIAL (felt252 layer only): deserialize(serialize(v)) == v and exact consumption for each "
+              "Felt252Serde component type, shapes concrete and small, contents symbolic. Text, JSON and "
+              "CASM-identity legs are NOT covered."),
+        technique="Kani/CBMC bounded model checking of serialize/deserialize round trips",
+        ref="DESIGN.md 3/C18", note=B_NOTE),
+    "C19": dict(
+        cat="model_checking", engine="kani",
+        text=("PARTIAL (segment-length conjunct only): get_segment_lengths returns positive lengths that sum "
+              "to the bytecode length for every sorted list of <= 4 symbolic start offsets; FunctionInfo "
+              "accepts a statement only if all branch targets lie inside the function. All other conjuncts "
+              "of the property are NOT covered."),
+        technique="Kani/CBMC bounded model checking of contract_segmentation.rs kernels",
+        ref="DESIGN.md 3/C19", note=B_NOTE),
+})
+
 NOT_APPLICABLE = {
     "C01": "check under construction (translation validation against a reference evaluator, DESIGN 3/C01)",
     "C05": "check under construction (translation validation between configurations, DESIGN 3/C05)",
     "C07": "check under construction (DESIGN 3/C07)",
-    "C14": "check under construction (Kani, DESIGN 3/C14)",
-    "C16": "check under construction (Kani, DESIGN 3/C16)",
-    "C18": "check under construction (Kani, DESIGN 3/C18)",
-    "C19": "check under construction (Kani, DESIGN 3/C19)",
     "C08": "quantifies over whole programs pushed through the salsa front end and two whole-program analyses; no kernel a solver can encode (DESIGN 4)",
     "C09": "lexer/parser/formatter/diagnostics run against the salsa database; symbolic source text through a recursive-descent parser with interning is out of reach of Kani/SMT here (DESIGN 4)",
     "C10": "same code as C09: green-node widths live in interned nodes of the salsa database (DESIGN 4)",
